@@ -51,7 +51,7 @@ impl Property for C02 {
         ]
     }
     fn required_probes(&self, _tier: &str) -> Vec<String> {
-        vec!["touch:stdout-error".into(), "touch:stderr-error".into(), "touch:read-error".into(), "touch:open-error".into(), "touch:cwd-error".into(), "touch:argv-bytes".into(), "touch:real-epipe".into()]
+        vec!["touch:stdout-error".into(), "touch:stderr-error".into(), "touch:read-error".into(), "touch:open-error".into(), "touch:cwd-error".into(), "touch:argv-bytes".into(), "touch:real-epipe".into(), "touch:real-enospc".into()]
     }
 
     fn gen_case(&self, ctx: &Ctx, worker: usize, rng: &mut Rng, index: u64) -> Case {
@@ -82,11 +82,15 @@ impl Property for C02 {
             world.spelling = 7 + rng.below(5) as u8;
         }
         if rng.chance(3, 100) {
-            // real kernel faults: a pipe whose reader has gone (EPIPE)
-            if rng.chance(1, 2) {
-                world.stdout = 6;
-            } else {
-                world.stderr = 6;
+            // real kernel faults: a pipe whose reader has gone (EPIPE), a full device (ENOSPC)
+            let k = 6 + rng.below(2) as u8;
+            match rng.below(3) {
+                0 => world.stdout = k,
+                1 => world.stderr = k,
+                _ => {
+                    world.stdout = k;
+                    world.stderr = 6 + rng.below(2) as u8;
+                }
             }
             world.merged = false;
         }
@@ -175,6 +179,9 @@ impl Property for C02 {
         }
         if r.events.iter().any(|e| e.kind == 'W' && e.ret < 0 && e.errno == 32 && e.act == "-") {
             out.probes.push("touch:real-epipe".into());
+        }
+        if r.events.iter().any(|e| e.kind == 'W' && e.ret < 0 && e.errno == 28 && e.act == "-") {
+            out.probes.push("touch:real-enospc".into());
         }
         if fd1_err && fd2_err {
             out.probes.push("both-sinks-failing".into());
